@@ -309,7 +309,6 @@ SS(s, sc) ==
                                                \cup (IF s.e.t = "none" THEN {} ELSE SE(s.e, sc))]
 StaticFaults(prog) == SBlock(prog, [names |-> PredefNames, loops |-> {}, infn |-> FALSE])
 
-\* ------------------------------ whole programs -----------------------------
 RECURSIVE Reify(_, _, _)
 \* deep copy of a value out of the heap (fuel n bounds cyclic structures)
 Reify(h, v, n) ==
@@ -321,6 +320,21 @@ Reify(h, v, n) ==
     [] v.k = "clos" -> [k |-> "fn"]
     [] OTHER -> v
 
+
+\* ------------------------------ incremental execution (REPL, C23) -----------
+\* the top-level state carried from one accepted line to the next
+TopState0 == [st |-> EmptyStore, env |-> <<>>]
+NamesOf(env) == {env[i].n : i \in 1..Len(env)}
+\* static faults of a line in the context of the bindings made so far
+LineFaults(ts, stmts) == SBlock(stmts, [names |-> PredefNames \cup NamesOf(ts.env), loops |-> {}, infn |-> FALSE])
+\* run the statements of a line from a top-level state: [s, v, st, env] (s = "ok" | "err" | "unspec")
+RunStmts(ts, stmts) ==
+  LET f(acc, s) == IF acc.s # "ok" THEN acc ELSE Ex(s, acc.env, acc.st, FALSE, 0)
+  IN FoldLeft(f, [s |-> "ok", v |-> Null, st |-> ts.st, env |-> ts.env], stmts)
+ObsOf(ts) == LET oi == LookupB(ts.env, "OBS")
+             IN IF oi = 0 THEN [k |-> "none"] ELSE Reify(ts.st.heap, ts.st.cells[ts.env[oi].c], 8)
+
+\* ------------------------------ whole programs -----------------------------
 \* Run: [how, obs, final, err]
 \*   how: "compile" | "ok" | "rterror" | "unspec"
 Run(prog) ==
